@@ -49,6 +49,8 @@ func pickDomain(name string, maxOrd, maxRep, nph int) *Domain {
 		return PodsDomain(maxOrd, maxRep, nph, false)
 	case "pods-del":
 		return PodsDomain(maxOrd, maxRep, nph, true)
+	case "pods-oddslots":
+		return OddSlotsPodsDomain(maxOrd, maxRep, nph)
 	case "pods-stale":
 		return StalePodsDomain(maxOrd, maxRep, nph)
 	case "pods-wide":
